@@ -135,6 +135,18 @@ M = [
     ("C15-simplify-sums-abs", ["C15"], "renormalizer/model/op.py", None, None),
     ("C18-svd-qn-block-order", ["C18", "C04"], "renormalizer/mps/svd_qn.py", None, None),
     ("C20-cover-drops-isolated", ["C20"], "renormalizer/lib/bipartite_matching/bipartite_matching.py", None, None),
+    # ---- session 3: under-represented properties -------------------------------------------------------------
+    ("C02-cell-terms-overwritten", ["C02"], "renormalizer/tn/symbolic_ttno.py", "            mo_tensor[i] += mo_elem[0, ..., 0]",
+     "            mo_tensor[i] = mo_elem[0, ..., 0]"),
+    ("C02-factor-float32", ["C02"], "renormalizer/tn/symbolic_ttno.py", "            op = composed_op.factor\n",
+     "            op = float(np.float32(composed_op.factor))\n"),
+    ("C11-bond-entropy-of-sigma", ["C11"], "renormalizer/tn/tree.py", "calc_vn_entropy(sigma ** 2) for sigma in s_array",
+     "calc_vn_entropy(sigma) for sigma in s_array"),
+    ("C11-mutual-info-not-halved", ["C11"], "renormalizer/tn/tree.py", "- entropy_2dof[dof_pair]) / 2", "- entropy_2dof[dof_pair]) / 1"),
+    ("C12-vmf-inverse-not-conjugated", ["C12"], "renormalizer/tn/time_evolution.py", "@ evecs.T.conj()", "@ evecs.T"),
+    ("C12-tdrk4-third-order", ["C12"], "renormalizer/tn/time_evolution.py", "    for i in range(4):\n        termlist.append(ttno.contract",
+     "    for i in range(3):\n        termlist.append(ttno.contract"),
+    ("C19-cash-karp-b-digit", ["C19"], "renormalizer/utils/rk.py", "44275/110592, 253/4096, 0]])", "44275/110592, 253/4097, 0]])"),
 ]
 
 
